@@ -90,6 +90,13 @@ impl<B: Buffer> Editor<B> {
         }
     }
 
+    /// Whole buffer, number of valid bytes, cursor (in chars)
+    #[cfg(feature = "verif-hooks")]
+    #[doc(hidden)]
+    pub fn verif_raw(&self) -> (&[u8], usize, usize) {
+        (self.buffer.as_slice(), self.valid, self.cursor)
+    }
+
     pub fn clear(&mut self) {
         self.valid = 0;
         self.cursor = 0;
